@@ -13,8 +13,8 @@ use crate::refledger::{self as rl, Ann, Bal, Exp, Prec, State, P};
 pub const DEF: CheckDef = CheckDef {
     id: "C04",
     run,
-    technique: "exhaustive enumeration of all ledgers of up to 3-4 transactions over an 18-transaction alphabet (as histories, any file order) x precision contexts x ALL (start,end) date ranges; balance, range-recomputed balance and register are obtained from the real code and compared with each other and with the reference ledger's per-posting amounts",
-    rule: "case = (precision context, sequence of <= 4 (thorough 5) transactions from an 18-transaction alphabet with three dates (and, for <= 2 transactions, four more calendars placing the dates around 1970-01-01, a leap day, a year boundary and 1900), repeated dates, multi-commodity, cancelling, inferred, assigned, priced and sub-precision postings); inside a case all 36 (start,end) pairs over {none, d1-1, d1, d2, d3, d3+1} (incl. start=end and start>end) are queried, additivity is checked for every split point, and a slice of cases is also run through the CLI (balance/register on real files). states = distinct ledgers, transitions = balance/register queries compared",
+    technique: "exhaustive enumeration of all ledgers of up to 3-4 transactions over a 19-transaction alphabet (as histories, any file order) x precision contexts x ALL (start,end) date ranges; balance, range-recomputed balance and register are obtained from the real code and compared with each other and with the reference ledger's per-posting amounts",
+    rule: "case = (precision context, sequence of <= 4 (thorough 5) transactions from a 19-transaction alphabet with three dates (and, for <= 2 transactions, four more calendars placing the dates around 1970-01-01, a leap day, a year boundary and 1900), repeated dates, multi-commodity, cancelling, inferred, assigned, priced and sub-precision postings); inside a case all 36 (start,end) pairs over {none, d1-1, d1, d2, d3, d3+1} (incl. start=end and start>end) are queried, additivity is checked for every split point, and a slice of cases is also run through the CLI (balance/register on real files). states = distinct ledgers, transitions = balance/register queries compared",
     assumptions: &[
         "RefLedger gives the per-posting amounts; sums are exact rationals; a range report may be rounded to the declared precision (any midpoint rule accepted), the whole-history report may be raw",
         "three dates, accounts {P,Q,R}, commodities {X,Y}",
@@ -60,6 +60,8 @@ fn alphabet() -> Vec<T> {
         // assignments to zero of one commodity (the account must stop showing it) and of the whole account
         T { day: D2, ps: vec![P::assign("P", Bal::Val("0", "X")), P::omitted("Q")] },
         T { day: D3, ps: vec![P::assign("Q", Bal::Val("0", "Y")), P::omitted("R")] },
+        // an account whose name differs from P only in letter case: a different account
+        T { day: D1, ps: vec![a("p", "3", "X"), a("Q", "-3", "X")] },
         // the smallest unit of an 18-decimal commodity: a total of 1e-18 is not zero
         T { day: D2, ps: vec![a("P", "0.000000000000000001", "Y"), a("Q", "-0.000000000000000001", "Y")] },
     ]
@@ -184,7 +186,7 @@ fn judge(prec: &Prec, seq: &[&T], text: &str, with_cli: bool, queries: &mut u64)
         }
         *queries += 1;
         // register restricted to one account = the sub-list of the full register
-        for acc in ["P", "Q", "R", "Nope"] {
+        for acc in ["P", "p", "Q", "R", "Nope"] {
             let sub = l.postings(ctx, &PostingQuery { account: Some(acc.to_string()) });
             let want: Vec<&(String, QMap)> = reg_list.iter().filter(|(a, _)| a == acc).collect();
             *queries += 1;
@@ -345,7 +347,7 @@ fn cli_pass(text: &str, whole: &Balances, queries: &mut u64) -> Option<Outcome> 
             }
         }
     }
-    for acc in ["P", "Q", "R"] {
+    for acc in ["P", "p", "Q", "R"] {
         *queries += 1;
         let reg = match run_cli(&["okane", "register", &p, acc]) {
             Ok(s) => s,
